@@ -191,3 +191,9 @@ Lemma emit_destroyed_users t l s : users (emit_destroyed t l s) = users s.
 Proof. apply (emit_destroyed_fields t l s). Qed.
 #[export] Hint Rewrite emit_destroyed_queue emit_destroyed_permits emit_destroyed_size
   emit_destroyed_debt emit_destroyed_users : fld.
+
+Lemma emit_removed_clock t l s : clock (emit_removed t l s) = clock s.
+Proof. apply (emit_removed_fields t l s). Qed.
+Lemma emit_destroyed_clock t l s : clock (emit_destroyed t l s) = clock s.
+Proof. apply (emit_destroyed_fields t l s). Qed.
+#[export] Hint Rewrite emit_removed_clock emit_destroyed_clock : fld.
